@@ -174,6 +174,8 @@ def gen_history(rng, kind, profile, tier="quick"):
             victims = some(all_jobs, 1, 3)
             for j in victims:
                 op = rng.choice(["delete", "corrupt", "corrupt", "copy", "copy", "flip_exit", "rehash"])
+                if r == 1 and not ops:
+                    op = "corrupt"      # every tamper history has an unreadable cache file in front of a fresh destination
                 if op == "copy":
                     others = [o for o in all_jobs if o != j]
                     ops.append(("copy", rng.choice(others), j))
